@@ -9,7 +9,7 @@ ID = 'C07'
 LEVEL = 'exploration'
 RULE = (
     'Generated directed forwarding graphs over 2-5 buses (chains, diamonds, cycles, self-loops, several wildcard and '
-    'type-specific forwards per bus, bus names that are substrings of each other), any entry bus, timed handlers and a passive probe on every bus, optional nested '
+    'type-specific forwards per bus, bus names that are substrings of each other), any entry bus, timed handlers (functions and bound methods of bus objects) and a passive probe on every bus, optional nested '
     'dispatch/awaits and concurrent traffic, re-dispatch of in-flight events to other buses. Oracle = graph '
     'reachability per event type: the set of buses that processed the event equals the reachable set, each handler '
     'once, the run terminates, event_path = buses in order of arrival each once, same object everywhere, results of '
@@ -56,7 +56,12 @@ def _sc(draw):
             bi = draw(st.integers(0, nb - 1))
             is_async = draw(st.integers(0, 3)) != 0
             prog = draw(handler_prog(PH, nb, level, maxdepth, is_async, False))
-            h = {'bus': bi, 'pat': level if draw(st.integers(0, 3)) else f's{level}', 'kind': 'async' if is_async else 'sync', 'prog': prog, 'ret': draw(st.sampled_from(['idx', 'none', 'str']))}
+            kind = 'async' if is_async else 'sync'
+            h = {'bus': bi, 'pat': level if draw(st.integers(0, 3)) else f's{level}', 'kind': kind, 'prog': prog, 'ret': draw(st.sampled_from(['idx', 'none', 'str']))}
+            if draw(st.integers(0, 4)) == 0:
+                # an ordinary handler that happens to be a bound method of a bus object (applications subclass EventBus): never a forward
+                h['kind'] = 'abusmeth' if is_async else 'busmeth'
+                h['owner'] = draw(st.integers(0, nb - 1))
             if draw(st.integers(0, 5)) == 5:
                 h['bus2'] = draw(st.integers(0, nb - 1).filter(lambda x: x != bi))  # the same function object registered on a second bus
             handlers.append(h)
